@@ -68,6 +68,11 @@ pub struct Case {
     /// i-th constant of INTERESTS); 0 or absent = Interest::ALL.
     #[serde(default)]
     pub interests: Vec<u16>,
+    /// Directory k is removed, created again and watched again under the same
+    /// path: a new watch descriptor for a path the table already holds under
+    /// the old descriptor (whose IN_IGNORED may still be in the stream).
+    #[serde(default)]
+    pub replace: Option<u8>,
 }
 
 const BUF_SIZE: usize = 272;
@@ -203,8 +208,9 @@ impl Property for C17 {
             proptest::collection::vec(prop_oneof![4 => Just(0u8), 4 => 1u8..6, 1 => Just(255u8)], 0..14),
             proptest::option::weighted(0.3, 0u8..3),
             proptest::collection::vec(prop_oneof![2 => Just(0u16), 3 => 1u16..(1 << 14)], 0..=3),
+            proptest::option::weighted(0.25, 0u8..3),
         )
-            .prop_map(|(watches, records, reads, keep, rewatch, interests)| Case { watches, records, reads, keep, rewatch, interests })
+            .prop_map(|(watches, records, reads, keep, rewatch, interests, replace)| Case { watches, records, reads, keep, rewatch, interests, replace })
             .boxed()
     }
 
@@ -354,8 +360,39 @@ fn run_case(case: &Case, ctx: &mut Ctx) {
         }
     }
 
-    let mut dirs = dirs;
-    if let Some(k) = case.rewatch {
+    let mut dirs: Vec<PathBuf> = dirs.into_iter().take(nwatch).collect();
+    let mut replaced: Option<usize> = None;
+    if let Some(k) = case.replace {
+        let k = k as usize % nwatch;
+        if std::fs::remove_dir_all(&dirs[k]).is_err() || std::fs::create_dir_all(&dirs[k]).is_err() {
+            ctx.infra("could not replace the watched directory");
+            return;
+        }
+        let before = inotify_wds(ifd);
+        let r = {
+            let _s = track::scope(track::TAG_A10);
+            watcher.watch_directory(dirs[k].clone(), Interest::ALL, Recursive::No)
+        };
+        if let Err(e) = r {
+            ctx.infra(format!("watch_directory (replaced directory) failed: {e}"));
+            return;
+        }
+        let after = inotify_wds(ifd);
+        match after.iter().find(|w| !before.contains(w) && !wds.contains(w)) {
+            Some(w) => {
+                wds.push(*w);
+                let p = dirs[k].clone();
+                dirs.push(p);
+                replaced = Some(k);
+                classes_early.push("same-path-two-descriptors");
+            }
+            None => {
+                ctx.infra("watching a replaced directory did not create a new watch descriptor");
+                return;
+            }
+        }
+    }
+    if let Some(k) = case.rewatch.filter(|k| Some(*k as usize % nwatch) != replaced) {
         let k = k as usize % nwatch;
         // (A renamed directory: watch_directory does not follow links.)
         let link = dirs[k].parent().unwrap().join(format!("moved{k}"));
